@@ -421,8 +421,11 @@ class CondWorld(World):
         timeout = st['timeout']
         depth = st.get('depth', 1) if self.recursive else 1
         self.lock(ac, 'wait')
-        for _ in range(depth - 1):
-            c.acquire()
+        want = depth
+        for _ in range(want - 1):
+            if not c.acquire(False):      # the owner of an RLock re-enters at once
+                ac.ev('W_bad', 'rlock_reentry_refused')
+                depth -= 1
         ac.gen = a[b + GEN] + 1
         a[b + GEN] = ac.gen
         a[b + TIMED] = 0 if timeout is None else 1
@@ -824,6 +827,8 @@ def judge_cond_round(rec, attrs, logs, stuck, meta, state):
             if w is not None:
                 w.update(t_out=t, r='exc')
             V('condition_wait_raised', exc=e[4], tb=e[5])
+        elif k == 'W_bad':
+            V(e[3], note='Condition() default lock / ctx.RLock()')
         elif k == 'W_relexc':
             V('lock_not_restored_after_wait', what='release raised', exc=e[4])
         elif k == 'N_in':
